@@ -73,6 +73,13 @@ Theorem C18_changeover_hands_over_general : forall init standalone k,
   match lookup_last k init with Some p => if p =? 0 then None else Some p | None => None end.
 Proof. exact changeover_hands_over. Qed.
 
+(* the consumer's own cross-chain validator store agrees with what it handed to the consensus engine: after the
+   changeover both hold exactly the provider's initial set *)
+Theorem C18_changeover_store_agrees : forall init standalone k,
+  (forall x, In x init -> 0 < upow x) ->
+  lookup k (cc_apply init []) = lookup k (tm_apply (changeover_updates init standalone) standalone).
+Proof. intros init sa k H. rewrite changeover_cc_store, changeover_hands_over_pos; auto. Qed.
+
 (* the returned slice is the stored initial set, unchanged and in stored order, followed only by removals of standalone
    validators that are not provider validators, in staking order: nothing in it depends on a map iteration *)
 Theorem C18_changeover_shape : forall init standalone,
